@@ -176,7 +176,7 @@ Lemma ps_record_T ptr isz st last b st' last' : ps_T isz st ->
 Proof.
   intros T. unfold ps_record.
   destruct (parse_dr b) as [r|]; [|discriminate].
-  destruct (ps_outside (sysuse r)); [discriminate|].
+  destruct (ps_outside (sysuse r) (znth 32 b)); [discriminate|].
   destruct (ps_is_dir r) eqn:Hd.
   - cbv beta iota zeta.
     match goal with |- context [if ?c then PInvalid 3 else _] => destruct c; [discriminate|] end.
